@@ -93,13 +93,92 @@ def replay(case):
     return {"ok": not bad, "problems": bad}
 
 
+def hourly_case(case):
+    """Real HourlyBaselineData / HourlyReportingData on a 365-day hourly meter with one block of missing cells in one month."""
+    import opendsm.eemeter as em
+    tz = case.get("tz", "America/Chicago")
+    idx = pd.date_range(case.get("start", "2022-01-01 00:00"), periods=case.get("hours", 8760), freq="h", tz=tz)
+    n = len(idx)
+    h = np.arange(n)
+    rng = np.random.default_rng(3)
+    df = pd.DataFrame({"temperature": 55 + 20 * np.sin(h / 24 / 58.0) + 6 * np.sin(h / 24 * 2 * np.pi),
+                       "observed": 1.5 + 0.5 * np.sin(h / 24 * 2 * np.pi) + rng.uniform(0.0, 0.2, n)}, index=idx)
+    if case.get("ghi"):
+        df["ghi"] = np.clip(600 * np.sin((h % 24 - 6) / 12 * np.pi), 0, None) + 1.0
+    for col, (a, k) in case.get("gaps", {}).items():
+        df.iloc[a:a + k, df.columns.get_loc(col)] = np.nan
+    if case.get("negative"):
+        df.iloc[200, df.columns.get_loc("observed")] = -3.0
+    rep = case["reporting"]
+    cls = em.HourlyReportingData if rep else em.HourlyBaselineData
+    try:
+        d = cls(df, is_electricity_data=case.get("electric", True))
+    except Exception as e:  # noqa
+        return {"ok": False, "problems": [f"well-formed input rejected: {type(e).__name__}: {e}"]}
+    got = {w.qualified_name for w in d.disqualification}
+    # independent evaluation on the whole-local-day hourly grid
+    first, last = idx[0].normalize(), idx[-1].normalize() + pd.Timedelta(days=1)
+    grid = pd.date_range(first.tz_localize(None), last.tz_localize(None), freq="h", inclusive="left").tz_localize(tz, ambiguous="NaT", nonexistent="NaT")
+    grid = pd.date_range(first, periods=int(round((last - first) / pd.Timedelta(hours=1))), freq="h")
+    full = df.reindex(grid)
+    exp = set()
+    both = full["temperature"].notna() & (full["observed"].notna() if not rep else True)
+    n_total = (both[both].index.max() - both[both].index.min()).days + 1
+    if not rep and (n_total > 365 or n_total < 329):
+        exp.add(P + "incorrect_number_of_total_days")
+    cov = lambda m: int(round(m.iloc[:-1].sum() / 24.0)) / n_total  # noqa: E731
+    if cov(both) < 0.9:
+        exp.add(P + "too_many_days_with_missing_data")
+    if not rep and cov(full["observed"].notna()) < 0.9:
+        exp.add(P + "too_many_days_with_missing_meter_data")
+    if cov(full["temperature"].notna()) < 0.9:
+        exp.add(P + "too_many_days_with_missing_temperature_data")
+    month = full.index.month
+    if (full["temperature"].notna().groupby(month).mean() < 0.9).any():
+        exp.add(P + "missing_monthly_temperature_data")
+    if not rep and (full["observed"].notna().groupby(month).mean() < 0.9).any():
+        exp.add(P + "missing_monthly_meter_data")
+    if case.get("ghi") and (full["ghi"].notna().groupby(month).mean() < 0.9).any():
+        exp.add(P + "missing_monthly_ghi_data")
+    if not rep and not case.get("electric", True) and (df["observed"] < 0).any():
+        exp.add(P + "negative_meter_values")
+    bad = []
+    if got != exp:
+        bad.append(f"disqualifications {sorted(x.replace(P, '') for x in got)} but the criteria give {sorted(x.replace(P, '') for x in exp)}")
+    return {"ok": not bad, "problems": bad}
+
+
+def hourly_cases(tier):
+    cases = []
+    apr = (31 + 28 + 31) * 24 + 5 * 24          # 6 April 00:00 local (April has 720 hours: the 90 % line is 72 missing hours)
+    for rep in (False, True):
+        cases.append({"kind": "hourly", "reporting": rep})
+        cases.append({"kind": "hourly", "reporting": rep, "ghi": True})
+        cases.append({"kind": "hourly", "reporting": rep, "start": "2022-01-01 06:00"})
+        cases.append({"kind": "hourly", "reporting": rep, "hours": 8760 + 48})
+        cases.append({"kind": "hourly", "reporting": rep, "hours": 328 * 24})
+        cases.append({"kind": "hourly", "reporting": rep, "negative": True, "electric": False})
+        for k in (71, 72, 73):
+            for col in ("temperature", "observed", "ghi"):
+                if rep and col == "observed":
+                    continue
+                cases.append({"kind": "hourly", "reporting": rep, "ghi": True, "gaps": {col: [apr, k]}})
+            if tier == "thorough":
+                cases.append({"kind": "hourly", "reporting": rep, "ghi": True, "gaps": {"temperature": [apr, k], "ghi": [apr + 300, k]}})
+                cases.append({"kind": "hourly", "reporting": rep, "gaps": {"temperature": [apr, k]}, "tz": "Europe/Berlin"})
+    return cases
+
+
 def run(tier="quick", seed=0):
     b = Bounded("C10", "C10.boundary", MODULE,
                 "real DailyBaselineData / DailyReportingData (frame and from_series) on synthetic daily meters: span in {328, 329, 330, 364, 365, 366, 367} "
                 "days; with a 365-day span exactly {35, 36, 37} missing meter days, missing temperature days or both (the 90% line is 36.5); one "
                 "calendar month with {2, 3, 4} missing temperature days (the monthly 90% line); negative usage for gas and electric; an extreme "
                 "value; UTC index; placement of the gap {start, middle, end, scattered}. Independent evaluation of the published criteria. "
-                "distinct = case", known_findings=load_known("C10"))
+                "Incomplete rows at the outer edges of the frame "
+                "(368/331/332/365 rows with 3 or 40 edge days lacking a reading). Real HourlyBaselineData / HourlyReportingData on 365-day hourly meters: "
+                "complete, with irradiance, starting at 06:00, 367 and 328 days, negative gas usage, and one April block of {71, 72, 73} missing "
+                "temperature / usage / irradiance hours (the monthly 90 % line is 72 of 720). distinct = case", known_findings=load_known("C10"))
     cases = []
     for rep in (False, True):
         for entry in ("frame", "series"):
@@ -126,9 +205,22 @@ def run(tier="quick", seed=0):
             cases.append({"reporting": rep, "entry": entry, "n_days": 365, "tz": "UTC"})
     if tier == "quick":
         cases = [c for i, c in enumerate(cases) if i % 2 == 0 or "negative" in c or "extreme" in c or c["n_days"] != 365]
+    # span measured between the first and last row that carry BOTH readings: incomplete rows at the outer edges of the frame
+    for rep in (False, True):
+        for entry in ("frame", "series"):
+            for n, k in ((368, 3), (331, 3), (332, 3), (365, 40)):
+                for side in ("head", "tail", "both"):
+                    lead = list(range(0, k)) if side in ("head", "both") else []
+                    trail = list(range(n - k, n)) if side in ("tail", "both") else []
+                    if side == "both" and k > 3:
+                        continue
+                    cases.append({"reporting": rep, "entry": entry, "n_days": n, "missing_meter": lead + trail})
+                    if tier == "thorough":
+                        cases.append({"reporting": rep, "entry": entry, "n_days": n, "missing_temp": lead + trail})
+    cases += hourly_cases(tier)
     for case in cases:
         try:
-            r = replay(case)
+            r = hourly_case(case) if case.get("kind") == "hourly" else replay(case)
         except Exception as e:  # noqa
             import traceback
             r = {"ok": False, "problems": [f"harness exception {type(e).__name__}: {e}", traceback.format_exc()[-500:]]}
